@@ -96,16 +96,22 @@ theorem bfly4_2 (v0 v1 v2 v3 : Nat) : bfly4 v0 v1 v2 v3 2 = subMod (addMod v0 v1
 theorem bfly4_3 (v0 v1 v2 v3 : Nat) : bfly4 v0 v1 v2 v3 3 = subMod (subMod v0 v1) (subMod v2 v3) := by
   unfold bfly4; split <;> first | omega | (exfalso; simp at *)
 
-/-- `fwht_4` in range: the four positions of the orbit are overwritten with the butterfly of their values -/
-theorem aux_fwht_4 (st : Array Nat) (o d : Nat) (hs : st.size = 65536) (h : o + d * 3 < 65536)
+/-- `fwht_4` in range: the four (distinct, `0 < d`) positions of the orbit are overwritten with the butterfly of
+their values. Stated pointwise, and proved without reference to the order of the four stores. -/
+theorem aux_fwht_4 (st : Array Nat) (o d : Nat) (hs : st.size = 65536) (hd : 0 < d) (h : o + d * 3 < 65536)
     (h0 : st.getD o 0 < 65536) (h1 : st.getD (o + d) 0 < 65536) (h2 : st.getD (o + d * 2) 0 < 65536)
     (h3 : st.getD (o + d * 3) 0 < 65536) :
-    U_fwht_4 st o d = some ((((st.set! o
-        (bfly4 (st.getD o 0) (st.getD (o + d) 0) (st.getD (o + d * 2) 0) (st.getD (o + d * 3) 0) 0)).set! (o + d)
-        (bfly4 (st.getD o 0) (st.getD (o + d) 0) (st.getD (o + d * 2) 0) (st.getD (o + d * 3) 0) 1)).set! (o + d * 2)
-        (bfly4 (st.getD o 0) (st.getD (o + d) 0) (st.getD (o + d * 2) 0) (st.getD (o + d * 3) 0) 2)).set! (o + d * 3)
-        (bfly4 (st.getD o 0) (st.getD (o + d) 0) (st.getD (o + d * 2) 0) (st.getD (o + d * 3) 0) 3)) := by
+    ∃ st', U_fwht_4 st o d = some st' ∧ st'.size = st.size ∧ ∀ p, st'.getD p 0 =
+      if p = o then bfly4 (st.getD o 0) (st.getD (o + d) 0) (st.getD (o + d * 2) 0) (st.getD (o + d * 3) 0) 0
+      else if p = o + d then
+        bfly4 (st.getD o 0) (st.getD (o + d) 0) (st.getD (o + d * 2) 0) (st.getD (o + d * 3) 0) 1
+      else if p = o + d * 2 then
+        bfly4 (st.getD o 0) (st.getD (o + d) 0) (st.getD (o + d * 2) 0) (st.getD (o + d * 3) 0) 2
+      else if p = o + d * 3 then
+        bfly4 (st.getD o 0) (st.getD (o + d) 0) (st.getD (o + d * 2) 0) (st.getD (o + d * 3) 0) 3
+      else st.getD p 0 := by
   unfold U_fwht_4
+  have e0 : o < 65536 := by omega
   have e1 : o + d < 65536 := by omega
   have e2 : d * 2 < 65536 := by omega
   have e3 : o + d * 2 < 65536 := by omega
@@ -119,10 +125,36 @@ theorem aux_fwht_4 (st : Array Nat) (o d : Nat) (hs : st.size = 65536) (h : o + 
       (addMod_lt _ _ h0 h1) (addMod_lt _ _ h2 h3), Option.bind_some,
     aux_fwht_2 (subMod (st.getD o 0) (st.getD (o + d) 0)) (subMod (st.getD (o + d * 2) 0) (st.getD (o + d * 3) 0))
       (subMod_lt _ _ h0 h1) (subMod_lt _ _ h2 h3), Option.bind_some]
-  have e0 : o < st.size := by omega
-  rw [if_pos e0, Option.bind_some, size_set!, if_pos (by omega), Option.bind_some, size_set!, size_set!,
-    if_pos (by omega), Option.bind_some, size_set!, size_set!, size_set!, if_pos (by omega), Option.bind_some]
-  rw [bfly4_0, bfly4_1, bfly4_2, bfly4_3]
+  -- the four stores, in whatever order: every bound check holds (sizes are unchanged by `set!`)
+  have g0 : o < st.size := by omega
+  have g1 : o + d < st.size := by omega
+  have g2 : o + d * 2 < st.size := by omega
+  have g3 : o + d * 3 < st.size := by omega
+  simp only [size_set!, if_pos g0, if_pos g1, if_pos g2, if_pos g3, Option.bind_some]
+  refine ⟨_, rfl, ?_, ?_⟩
+  · simp only [size_set!]
+  · intro p
+    -- decide which (if any) of the four distinct positions `p` is, then evaluate both `if` chains
+    by_cases c0 : p = o
+    · have c1 : ¬ p = o + d := by omega
+      have c2 : ¬ p = o + d * 2 := by omega
+      have c3 : ¬ p = o + d * 3 := by omega
+      simp only [getD_set!, size_set!, g0, g1, g2, g3, bfly4_0, bfly4_1, bfly4_2, bfly4_3,
+        if_pos c0, if_neg c1, if_neg c2, if_neg c3]
+    · by_cases c1 : p = o + d
+      · have c2 : ¬ p = o + d * 2 := by omega
+        have c3 : ¬ p = o + d * 3 := by omega
+        simp only [getD_set!, size_set!, g0, g1, g2, g3, bfly4_0, bfly4_1, bfly4_2, bfly4_3,
+          if_neg c0, if_pos c1, if_neg c2, if_neg c3]
+      · by_cases c2 : p = o + d * 2
+        · have c3 : ¬ p = o + d * 3 := by omega
+          simp only [getD_set!, size_set!, g0, g1, g2, g3, bfly4_0, bfly4_1, bfly4_2, bfly4_3,
+            if_neg c0, if_neg c1, if_pos c2, if_neg c3]
+        · by_cases c3 : p = o + d * 3
+          · simp only [getD_set!, size_set!, g0, g1, g2, g3, bfly4_0, bfly4_1, bfly4_2, bfly4_3,
+              if_neg c0, if_neg c1, if_neg c2, if_pos c3]
+          · simp only [getD_set!, size_set!, g0, g1, g2, g3, bfly4_0, bfly4_1, bfly4_2, bfly4_3,
+              if_neg c0, if_neg c1, if_neg c2, if_neg c3]
 
 /-- state of the sequential pass when all orbits with base `< o` are done -/
 def Inv (d m : Nat) (data : Array Nat) (o : Nat) (st : Array Nat) : Prop :=
@@ -152,32 +184,34 @@ theorem inv_step (d m : Nat) (data st : Array Nat) (r o : Nat) (hd : d ∈ dists
     rw [hv (o + d * 3) (by omega), o3.2.1, if_neg (by omega)]
   have eo : o % 65536 = o := Nat.mod_eq_of_lt (by omega)
   have ed : d % 65536 = d := Nat.mod_eq_of_lt hd16
-  rw [eo, ed, aux_fwht_4 st o d hs (by omega) (by rw [r0]; exact hU _) (by rw [r1]; exact hU _)
-    (by rw [r2]; exact hU _) (by rw [r3]; exact hU _)]
-  refine ⟨_, rfl, ?_, ?_⟩
-  · simp only [size_set!]; exact hs
-  · intro p hp
-    rw [getD_set! _ _ _ _ (by simp only [size_set!]; omega), getD_set! _ _ _ _ (by simp only [size_set!]; omega),
-      getD_set! _ _ _ _ (by simp only [size_set!]; omega), getD_set! _ _ _ _ (by omega), r0, r1, r2, r3]
-    have e2 : o + 2 * d = o + d * 2 := by omega
-    have e3 : o + 3 * d = o + d * 3 := by omega
-    by_cases h3 : p = o + d * 3
-    · rw [if_pos h3, h3, o3.2.1, if_pos (by omega), fwhtAt_eq, o3.1, if_pos hrm, o3.2.1, o3.2.2, e2, e3]
-    · rw [if_neg h3]
+  have hd0 : 0 < d := by
+    simp only [dists, List.mem_cons, List.mem_nil_iff, or_false] at hd
+    omega
+  obtain ⟨st', est, hsz, hval⟩ := aux_fwht_4 st o d hs hd0 (by omega) (by rw [r0]; exact hU _)
+    (by rw [r1]; exact hU _) (by rw [r2]; exact hU _) (by rw [r3]; exact hU _)
+  rw [eo, ed]
+  refine ⟨st', est, hsz.trans hs, ?_⟩
+  intro p hp
+  rw [hval p, r0, r1, r2, r3]
+  have e2 : o + 2 * d = o + d * 2 := by omega
+  have e3 : o + 3 * d = o + d * 3 := by omega
+  by_cases h0 : p = o
+  · rw [if_pos h0, h0, o0.2.1, if_pos (by omega), fwhtAt_eq, o0.1, if_pos hrm, o0.2.1, o0.2.2, e2, e3]
+  · rw [if_neg h0]
+    by_cases h1 : p = o + d
+    · rw [if_pos h1, h1, o1.2.1, if_pos (by omega), fwhtAt_eq, o1.1, if_pos hrm, o1.2.1, o1.2.2, e2, e3]
+    · rw [if_neg h1]
       by_cases h2 : p = o + d * 2
       · rw [if_pos h2, h2, o2.2.1, if_pos (by omega), fwhtAt_eq, o2.1, if_pos hrm, o2.2.1, o2.2.2, e2, e3]
       · rw [if_neg h2]
-        by_cases h1 : p = o + d
-        · rw [if_pos h1, h1, o1.2.1, if_pos (by omega), fwhtAt_eq, o1.1, if_pos hrm, o1.2.1, o1.2.2, e2, e3]
-        · rw [if_neg h1]
-          by_cases h0 : p = o
-          · rw [if_pos h0, h0, o0.2.1, if_pos (by omega), fwhtAt_eq, o0.1, if_pos hrm, o0.2.1, o0.2.2, e2, e3]
-          · rw [if_neg h0, hv p hp]
-            have hB : B d p ≠ o := fun e => by
-              rcases orbit_conv d r o p hd hr hro hod e with h | h | h | h <;> omega
-            by_cases hlt : B d p < o
-            · rw [if_pos hlt, if_pos (by omega)]
-            · rw [if_neg hlt, if_neg (by omega)]
+        by_cases h3 : p = o + d * 3
+        · rw [if_pos h3, h3, o3.2.1, if_pos (by omega), fwhtAt_eq, o3.1, if_pos hrm, o3.2.1, o3.2.2, e2, e3]
+        · rw [if_neg h3, hv p hp]
+          have hB : B d p ≠ o := fun e => by
+            rcases orbit_conv d r o p hd hr hro hod e with h | h | h | h <;> omega
+          by_cases hlt : B d p < o
+          · rw [if_pos hlt, if_pos (by omega)]
+          · rw [if_neg hlt, if_neg (by omega)]
 
 def innerF (d : Nat) : Nat → Array Nat → Option (Array Nat) := fun offset st =>
   (U_fwht_4 st (offset % 65536) (d % 65536)).bind fun r => some r
